@@ -410,28 +410,61 @@ func runInstance(r *core.Run, in *instance) {
 				r.Violate(kc("alter", a.name+"-accepted"), "altered share/id passes Verify", rc)
 			}
 		}
-		for k := 0; k <= t; k++ {
-			np := cv.rc.Add(refVs[k], cv.rc.G())
-			if cv.rc.IsNeutral(np) {
-				r.Count("alterations_skipped_identity", 1)
-				continue
+		// commitment alterations: V_k + G on both curves; on edwards25519 also V_k + T for each of the 7 points T
+		// of small order (a different, valid on-curve commitment vector). Expected verdict = the defining
+		// equation share*G == sum id^k V'_k evaluated with the reference arithmetic: V_k + T is equivalent for
+		// THIS share exactly when id^k * T is the neutral element (e.g. an even id and the point of order 2).
+		type delta struct {
+			name string
+			p    ref.Point
+		}
+		deltas := []delta{{"G", cv.rc.G()}}
+		if cv.name == "ed25519" {
+			for ti, T := range cv.rc.TorsionEd() {
+				if !cv.rc.IsNeutral(T) {
+					deltas = append(deltas, delta{fmt.Sprintf("T%d", ti), T})
+				}
 			}
-			pt, perr := crypto.NewECPoint(cv.ec, np.X, np.Y)
-			if perr != nil {
-				r.Violate(kc("alter", "cannot-build-point"), "NewECPoint refused V_k+G computed by the reference: "+perr.Error(), rec(map[string]interface{}{"k": k}))
-				continue
-			}
-			vs2 := make(vss.Vs, len(vs))
-			for kk := range vs {
-				x, y := vs[kk].X(), vs[kk].Y()
-				vs2[kk] = crypto.NewECPointNoCurveCheck(cv.ec, x, y)
-			}
-			vs2[k] = pt
-			var okA bool
-			ev(r, fmt.Sprintf("alter/%s/i%d/V%d+G", tag, i, k))
-			rc := rec(map[string]interface{}{"share_index": i, "alteration": fmt.Sprintf("V_%d+G", k)})
-			if guard(r, kc("alter", "commitment+G"), rc, func() { okA = shares[i].Verify(cv.ec, t, vs2) }) && okA {
-				r.Violate(kc("alter", "commitment+G-accepted"), fmt.Sprintf("share verifies against commitments with V_%d replaced by V_%d+G", k, k), rc)
+		}
+		for _, d := range deltas {
+			for k := 0; k <= t; k++ {
+				np := cv.rc.Add(refVs[k], d.p)
+				if cv.rc.IsNeutral(np) {
+					r.Count("alterations_skipped_identity", 1)
+					continue
+				}
+				pt, perr := crypto.NewECPoint(cv.ec, np.X, np.Y)
+				if perr != nil {
+					r.Violate(kc("alter", "cannot-build-point"), "NewECPoint refused V_k+"+d.name+" computed by the reference: "+perr.Error(), rec(map[string]interface{}{"k": k}))
+					continue
+				}
+				vs2 := make(vss.Vs, len(vs))
+				refVs2 := make([]ref.Point, len(vs))
+				for kk := range vs {
+					x, y := vs[kk].X(), vs[kk].Y()
+					vs2[kk] = crypto.NewECPointNoCurveCheck(cv.ec, x, y)
+					refVs2[kk] = refVs[kk]
+				}
+				vs2[k] = pt
+				refVs2[k] = np
+				want := cv.rc.Equal(refCommitEval(cv, refVs2, shares[i].ID), cv.rc.BaseMul(new(big.Int).Mod(shares[i].Share, cv.q)))
+				if want {
+					r.Count("alterations_equivalent_for_this_id", 1) // the small-order component is annihilated by id^k
+				}
+				var okA bool
+				ev(r, fmt.Sprintf("alter/%s/i%d/V%d+%s", tag, i, k, d.name))
+				rc := rec(map[string]interface{}{"share_index": i, "alteration": fmt.Sprintf("V_%d+%s", k, d.name), "reference_equation_holds": want})
+				cls := "commitment+G"
+				if d.name != "G" {
+					cls = "commitment+small-order-point"
+				}
+				if guard(r, kc("alter", cls), rc, func() { okA = shares[i].Verify(cv.ec, t, vs2) }) && okA != want {
+					if okA {
+						r.Violate(kc("alter", cls+"-accepted"), fmt.Sprintf("share verifies against commitments with V_%d replaced by V_%d+%s", k, k, d.name), rc)
+					} else {
+						r.Violate(kc("alter", cls+"-equivalent-refused"), fmt.Sprintf("share does not verify although the equation holds with V_%d+%s", k, d.name), rc)
+					}
+				}
 			}
 		}
 	}
@@ -582,9 +615,10 @@ func Run(r *core.Run) {
 	r.Set("rule", "cases = curves{secp256k1,ed25519} x (t,n) 1<=t<n<=max_n x secret classes x id patterns{1..n,q+1..q+n,generic256,generic512,mixed(q-1,1,2q+3,..)}: "+
 		"one case per oracle evaluation (own-id verify per share; other-id verify per ordered pair; reference evaluation of the commitments per share; "+
 		"ReConstruct per non-empty subset in ascending and descending order; reference Lagrange consistency per (t+1)-subset and outside share; "+
-		"alteration share+-1, id+-1, V_k+G per share and k) plus refusal cases (id in {0,q,2q} at each position; ids[j]=ids[i]+{0,q,2q,-q} and residue aliases for every pair) "+
+		"alteration share+-1, id+-1, V_k+G and (edwards25519) V_k+T for each small-order T, per share and k) plus refusal cases (id in {0,q,2q} at each position; ids[j]=ids[i]+{0,q,2q,-q} and residue aliases for every pair) "+
 		"for Create and CheckIndexes. Distinct = distinct canonical case strings (configuration + clause + indices); all are non-trivial (each executes library code on a different input).")
 	r.Assume("secrets are in [1,q-1] (0 would make V_0 the identity, which ECPoint cannot represent on secp256k1; C06 owns that)")
+	r.Assume("a commitment altered by a point of small order (edwards25519) must fail exactly when the defining equation share*G == sum id^k V_k fails under the reference arithmetic; where id^k annihilates the small-order component the altered vector is equivalent for that share (counted in alterations_equivalent_for_this_id)")
 	r.Assume("alterations that are equivalent modulo q (share+q, id+q) are not required to fail; alterations landing on 0 mod q are skipped and counted in alterations_skipped_identity")
 	r.Assume("fewer than t+1 shares: ReConstruct may return an error or a value different from the secret (it returns a different value without error for exactly t shares)")
 }
